@@ -20,6 +20,8 @@ def showExc : Exc → String
   | .other 2 => "E2"
   | .other 3 => "BE"
   | .other 4 => "E1s"
+  | .other 5 => "KeyboardInterrupt"
+  | .other 6 => "SystemExit"
   | .other n => s!"X{n}"
 
 def parseExc (s : String) : Option Exc :=
@@ -30,6 +32,8 @@ def parseExc (s : String) : Option Exc :=
   | "E2" => some (.other 2)
   | "BE" => some (.other 3)
   | "E1s" => some (.other 4)
+  | "KI" => some (.other 5)
+  | "SE" => some (.other 6)
   | "RT" => some (.runtime 0)
   | "TE" => some .typeErr
   | "SAI" => some .stopAsync
